@@ -548,7 +548,8 @@ func init() {
 		}
 		gen, exec, nt := twoWorlds(GenFleet(&fleetProfile{prop: id, stores: allKinds, roles: []string{"sketch", "sketch", "exact"}, minNodes: 1, maxNodes: 3, shareMap: true,
 			weights: []string{"unit", "int", "frac"}, valueSigns: []string{"pos", "neg", "mixed", "zeros"},
-			ops: ops, forms: []string{"bin", "binomit", "pb", "pbstream"}, modes: []string{"merge", "fresh", "reuse"}, queryEvery: map[string]int{"C14": 35, "C15": 0, "C16": 0}[id], maxOps: 120}), GenStoreWorld(id))
+			ops: ops, forms: []string{"bin", "binomit", "pb", "pbstream"}, modes: []string{"merge", "fresh", "reuse"}, queryEvery: map[string]int{"C14": 35, "C15": 0, "C16": 0}[id], maxOps: 120,
+			extra: map[string]func(*fleetGen){"C15": confusedSender}[id]}), GenStoreWorld(id))
 		engine.Register(&engine.Prop{
 			ID: id, Level: "exploration", World: "fleet+store",
 			QuickRuns: 9000, ThoroughRuns: 900000,
@@ -628,4 +629,45 @@ func diskActor(g *fleetGen) {
 		g.q.After(int64(r.Range(1, 2500)), act)
 	}
 	g.q.After(int64(r.Range(100, 1500)), act)
+}
+
+// confusedSender is the C15 actor that offers a plain encoding to an exact-summary sketch (the
+// decode is refused half-way when that sketch is still empty, silently accepted otherwise);
+// the owner then clears the sketch and re-uses it.
+func confusedSender(g *fleetGen) {
+	r := g.r
+	var exact, plain *fgNode
+	for _, n := range g.nodes {
+		if n.spec.Role == "exact" && exact == nil {
+			exact = n
+		}
+		if n.spec.Role == "sketch" && plain == nil {
+			plain = n
+		}
+	}
+	if exact == nil || plain == nil || !r.Pct(60) {
+		return
+	}
+	when := int64(0)
+	if r.Pct(50) {
+		when = int64(r.Range(0, 4000))
+	}
+	g.q.After(when, func() {
+		for k := r.Range(1, 12); k > 0; k-- {
+			g.emit(engine.Event{Ev: "add", N: plain.id, V: engine.F64(g.value(plain))})
+			plain.n++
+		}
+		id := g.nextMsg
+		g.nextMsg++
+		g.emit(engine.Event{Ev: "send", N: plain.id, J: int64(id), S: []string{"bin", "binomit"}[r.Intn(2)], I: int64(r.Range(0, 40))})
+		g.msgForms[id] = "bin"
+		g.msgOwner[id] = plain
+		g.emit(engine.Event{Ev: "deliver", N: exact.id, J: int64(id), S: "merge"})
+		g.emit(engine.Event{Ev: "clear", N: exact.id})
+		exact.n = 0
+		for k := r.Range(1, 6); k > 0; k-- {
+			g.emit(engine.Event{Ev: "add", N: exact.id, V: engine.F64(g.value(exact))})
+			exact.n++
+		}
+	})
 }
